@@ -57,6 +57,29 @@ def write_coqproject():
     return False
 
 
+def setup_build():
+    """MANIFEST.setup_cmd: full clean .vo build of everything under coq/ (keeps going past a file that fails, and then
+    requires the theorem files of every registered property to have been built)"""
+    import json
+    os.makedirs(WORK, exist_ok=True)
+    write_coqproject()
+    subprocess.run(["coq_makefile", "-f", "_CoqProject", "-o", "Makefile"], cwd=COQ, capture_output=True, text=True)
+    subprocess.run(["make", "clean"], cwd=COQ, capture_output=True, text=True)
+    p = subprocess.run(["bash", "-c", "ulimit -s unlimited 2>/dev/null; timeout 3000 make -k -j16 2>&1 | tail -40"],
+                       cwd=COQ, capture_output=True, text=True)
+    print(p.stdout)
+    man = json.load(open(os.path.join(ROOT, "MANIFEST.json")))
+    missing = []
+    for c in man["checks"]:
+        vo = os.path.join(COQ, "Props", "Properties_%s.vo" % c["property_id"])
+        if not os.path.exists(vo):
+            missing.append(vo)
+    if missing:
+        print("NOT BUILT:", missing)
+        return 1
+    return 0
+
+
 def ensure_built(clean=False, timeout=3000, targets=None):
     """(re)build every .vo that is out of date (full .vo build; never -vos). Serialised by a lock.
     targets: list of .v paths relative to coq/ -- build only these and what they depend on."""
